@@ -21,7 +21,7 @@ def registry():
         both = sym.concretize(sym.bool("reg.type_T"))
         for t in ("T", "U"):
             if both if (t == "T" or P(True, False)) else sym.concretize(sym.bool(f"reg.type_{t}")):
-                e.add_type_def(ext.TypeDef(t, "described", [tys.TypeTypeParam(TypeBound.Any)], ext.FromParamsBound([0])))
+                e.add_type_def(ext.TypeDef(t, "described", [tys.TypeTypeParam(TypeBound.Any), tys.TypeTypeParam(TypeBound.Any)], ext.FromParamsBound([0, 1])))
                 have[("my.ext", t)] = True
         if sym.concretize(sym.bool("reg.op")):
             e.add_op_def(ext.OpDef("Op", ext.OpDefSig(None, True), "definition's description"))
@@ -37,11 +37,12 @@ def opaque(tag, depth):
     en, tn = NAMES[sym.concretize(sym.int(f"{tag}.name", 0, len(NAMES) - 1))]
     inner = expr(tag + ".arg", depth - 1) if depth > 0 else [tys.Qubit, tys.Bool][sym.concretize(sym.int(f"{tag}.leaf", 0, 1))]
     # in a document the declared bound of an opaque type is the one its definition computes (here: from parameter 0)
-    return tys.Opaque(tn, inner.type_bound(), [tys.TypeTypeArg(inner)], en)
+    return tys.Opaque(tn, inner.type_bound(), [tys.TypeTypeArg(inner), tys.TypeTypeArg(tys.Bool)], en)
 
 
-def expr(tag, depth):
-    k = sym.concretize(sym.int(f"{tag}.kind", 0, 7 if depth > 0 else 1))
+def expr(tag, depth, k=None):
+    if k is None:
+        k = sym.concretize(sym.int(f"{tag}.kind", 0, 7 if depth > 0 else 1))
     if k == 0:
         return tys.Bool
     if k == 1:
@@ -113,14 +114,14 @@ def wrongly_resolved(t, have):
     return out
 
 
-@lemma("C11", bounds="type expressions of depth <= 2 (quick) / 3 (thorough) over Sum, Tuple, FunctionType (inputs and outputs), opaque types with type "
+@lemma("C11", params=[(k,) for k in range(8)], bounds="one task per outermost expression kind; type expressions of depth <= 2 (quick) / 3 (thorough) over Sum, Tuple, FunctionType (inputs and outputs), opaque types with type "
                      "arguments and sequence arguments; opaque leaves name one of 3 (extension, type) pairs; registries: my.ext present or not with any "
                      "subset of its two type definitions (quick: both or none), plus (thorough) an unrelated extension or not",
        outside="deeper expressions; opaque types whose declared bound contradicts their definition (not a loadable document)",
        opts={"max_paths": 400000, "timeout_s": 3000})
-def type_resolution():
+def type_resolution(kind):
     reg, have = registry()
-    t = expr("t", P(2, 3))  # depth
+    t = expr("t", P(2, 3), kind)
     sym.predicate("opaque_nested_in_type_argument_of_opaque", isinstance(t, tys.Opaque) and bool(leftovers(t.args[0], have)))
     r = t.resolve(reg)
     sym.check("resolves_every_held_definition_at_every_depth", leftovers(r, have) == [])
